@@ -218,6 +218,8 @@ pub fn oracle(scn: &SenderScn, ctx: &Ctx, trace: &SenderTrace) {
         let mut last_esi: BTreeMap<u32, u32> = BTreeMap::new();
         let mut repair: BTreeMap<u32, u64> = BTreeMap::new();
         let mut syms: BTreeMap<(u32, u32), Vec<u8>> = BTreeMap::new();
+        // RaptorQ with sub-blocking: symbols per block, de-interleaved once the transfer is complete
+        let mut rq_blocks: BTreeMap<u32, Vec<Option<Vec<u8>>>> = BTreeMap::new();
         for i in &t.pkts {
             let p = &trace.pkts[*i];
             if tl == 0 {
@@ -252,7 +254,30 @@ pub fn oracle(scn: &SenderScn, ctx: &Ctx, trace: &SenderTrace) {
                     violate(ctx, "C08/source-block-length-field", "-", format!("toi={} block {}: source block length field {} but the partition gives {}", t.toi, sbn, sbl, k));
                 }
             }
-            if (esi as u64) < k {
+            if (esi as u64) < k && oti.scheme == Scheme::RaptorQ && oti.sub_blocks > 1 {
+                // RFC 6330 sub-blocking (N > 1): a symbol is the concatenation of one sub-symbol of each of the N
+                // sub-blocks of its source block, not a contiguous slice (own implementation of s4.4.1.2)
+                let sizes = wire::rq_subsymbol_sizes(e as usize, oti.sub_blocks as usize, oti.al as usize);
+                let first = (wire::block_first_symbol(part, sbn as u64) * e) as usize;
+                let mut rq_syms = rq_blocks.remove(&sbn).unwrap_or_else(|| vec![None; k as usize]);
+                rq_syms[esi as usize] = Some(p.dec.payload.clone());
+                rq_blocks.insert(sbn, rq_syms);
+                if p.dec.payload.len() as u64 != e {
+                    violate(ctx, "C08/source-symbol-size", "raptorq-sub-blocks", format!("toi={} RaptorQ N={} symbol ({},{}) has {} payload bytes, E={}", t.toi, oti.sub_blocks, sbn, esi, p.dec.payload.len(), e));
+                } else if o.cenc == CencSpec::Null {
+                    let content = o.content();
+                    let end = (first + (k * e) as usize).min(content.len());
+                    let want = wire::rq_interleave(&content[first.min(end)..end], k as usize, &sizes);
+                    if want[esi as usize] != p.dec.payload {
+                        violate(
+                            ctx,
+                            "C08/source-symbol-content",
+                            "raptorq-sub-blocks",
+                            format!("toi={} RaptorQ N={} Al={} symbol ({},{}) is not the RFC 6330 s4.4.1.2 symbol of its source block (sub-symbol sizes {:?})", t.toi, oti.sub_blocks, oti.al, sbn, esi, sizes),
+                        );
+                    }
+                }
+            } else if (esi as u64) < k {
                 syms.insert((sbn, esi), p.dec.payload.clone());
                 // payload size: E, except the very last symbol of the object (short or zero padded)
                 let sym_index = wire::block_first_symbol(part, sbn as u64) + esi as u64;
@@ -298,6 +323,18 @@ pub fn oracle(scn: &SenderScn, ctx: &Ctx, trace: &SenderTrace) {
         for (sbn, n) in &repair {
             if *n > oti.parity as u64 {
                 violate(ctx, "C08/too-many-repair-symbols", "-", format!("toi={} transfer {} block {}: {} repair symbols, {} configured", t.toi, t.n, sbn, n, oti.parity));
+            }
+        }
+        if !rq_blocks.is_empty() {
+            let sizes = wire::rq_subsymbol_sizes(e as usize, oti.sub_blocks as usize, oti.al as usize);
+            for (sbn, v) in &rq_blocks {
+                if v.iter().all(|s| s.as_ref().map(|x| x.len() as u64 == e).unwrap_or(false)) {
+                    let symbols: Vec<Vec<u8>> = v.iter().map(|s| s.clone().unwrap()).collect();
+                    let block = wire::rq_deinterleave(&symbols, &sizes);
+                    for (m, c) in block.chunks(e as usize).enumerate() {
+                        syms.insert((*sbn, m as u32), c.to_vec());
+                    }
+                }
             }
         }
         if complete_transfer && tl > 0 {
